@@ -10,12 +10,13 @@ def consts(accts, ext, maxamt, periods, *, fee=1, slotmax=2, unbondperiod=1, unb
            maxops=100, record=True, impl="required", depth=None):
     c = {"Accts": tla_set(accts), "Ext": tla_set(ext), "MaxAmt": maxamt, "Fee": fee, "SlotMax": slotmax,
          "Periods": tla_set(periods), "UnbondPeriod": unbondperiod, "UnbondMax": unbondmax, "MaxH": maxh,
-         "MaxTx": maxtx, "MaxOps": maxops, "Record": "TRUE" if record else "FALSE", "Impl": '"%s"' % impl}
+         "MaxTx": maxtx, "MaxOps": maxops, "Record": "TRUE" if record else "FALSE", "Impl": '"%s"' % impl,
+         "ExtBond": 1, "ExtDeleg": 14, "PoolInit": 1 if not record else 3}
     if depth is not None:
         c["Depth"] = depth
         c["MaxOps"] = depth
     gocfg = dict(accts=list(accts), ext=list(ext), maxamt=maxamt, fee=fee, slotmax=slotmax,
-                 unbondperiod=unbondperiod, unbondmax=unbondmax)
+                 unbondperiod=unbondperiod, unbondmax=unbondmax, extbond=1, extdeleg=14)
     return c, gocfg
 
 
@@ -31,12 +32,12 @@ def run(ctx):
     from concurrent.futures import ThreadPoolExecutor
     import vlib
     mcw = max(2, vlib.NCPU // 3)      # several TLC processes run side by side
-    d = ctx.pick(6, 7)
+    d = 6
     wl = ctx.pick(30, 40)
 
     def mc():
         # 1. exhaustive model check of the required behaviour: 2 accounts + 1 external P-Rep
-        c, _ = consts(["a", "b"], ["p"], 2, [1, 2], maxh=ctx.pick(1, 3), maxtx=2, record=False)
+        c, _ = consts(["a", "b"], ["p"], 2, [1, 2], maxh=ctx.pick(1, 2), maxtx=2, record=False)
         return ctx.model_check("iiss", "MC_Staking", "MC_Staking.cfg", constants=c, coverage=True,
                                timeout=ctx.pick(600, 2400), workers=mcw)
 
@@ -90,8 +91,8 @@ def run(ctx):
         res = [f.result() for f in futs]
     r, rc, r1, groups = res[0], res[1], res[2], res[3:]
     ctx.check_coverage(r, ["SetStake", "SetDelegation", "SetBond", "Transfer", "Register", "Unregister", "Claim",
-                           "EndBlock"])
-    ctx.check_coverage(r1, ["SetStake", "SetDelegation", "SetBond", "Register", "Unregister", "EndBlock"],
+                           "Disqualify", "EndBlock"])
+    ctx.check_coverage(r1, ["SetStake", "SetDelegation", "SetBond", "Register", "Unregister", "Disqualify", "EndBlock"],
                        allow_zero=("Transfer",))
     ctx.exhaustive = True
     ctx.notes.append("Impl=\"code\" (timer jobs of unstake.go applied literally): TLC reports %s"
